@@ -28,9 +28,16 @@ def replay(pid, path):
             return 2
         r = res["replay"]
         print(json.dumps(r, indent=1))
-        if r.get("failures") or r.get("panic"):
+        if v.get("kind") == "panic":
+            reproduced = bool(r.get("panic"))
+        else:
+            reproduced = v["msg"] in (r.get("failures") or [])
+        if reproduced:
             print("VIOLATION property=%s replay=%s" % (pid, path))
+            print("  clause: %s" % v["msg"])
             return 1
+        print("not reproduced on the current tree: the recorded clause does not fail for this input"
+              " (other lines under \"failures\" only say that the input no longer drives the harness down the recorded path)")
         return 0
     finally:
         shutil.rmtree(tmp, ignore_errors=True)
